@@ -334,10 +334,34 @@ def bus_oracle(tr):
     return bad
 
 
+def queued_sender_scripts():
+    """sender='<well-known name>' means "sent by the connection that owns the name now": not by one that is only waiting for it, and the
+    answer changes the moment the queue moves"""
+    from ..bus import method_call, signal_msg, BUS, BUS_PATH
+    hello = lambda: method_call(1, BUS, BUS_PATH, BUS, "Hello").marshal()
+    add = lambda s, r: method_call(s, BUS, BUS_PATH, BUS, "AddMatch", "s", [r]).marshal()
+    req = lambda s, n, fl=0: method_call(s, BUS, BUS_PATH, BUS, "RequestName", "su", [n, fl]).marshal()
+    rel = lambda s, n: method_call(s, BUS, BUS_PATH, BUS, "ReleaseName", "s", [n]).marshal()
+    sig = lambda s, m, dest=None: signal_msg(s, "/a", "a.b", m, "s", [b"x"], dest=dest).marshal()
+    base = [("connect", 0, 0, False), ("send", 0, hello())] + [x for c in (1, 2, 3) for x in (("connect", c, 0, False), ("send", c, hello()))]
+    out = []
+    for rule in (b"type='signal',sender='com.example.A'", b"sender='com.example.A',interface='a.b'"):
+        out.append(base + [("send", 3, add(2, rule)), ("send", 1, req(2, b"com.example.A")), ("send", 2, req(2, b"com.example.A")),
+                           ("send", 1, sig(3, "FromOwner")), ("send", 2, sig(3, "FromWaiter")), ("send", 0, sig(2, "FromStranger")),
+                           ("send", 1, rel(4, b"com.example.A")), ("send", 1, sig(5, "FromFormerOwner")), ("send", 2, sig(4, "FromNewOwner")),
+                           ("close", 2), ("send", 1, sig(6, "NobodyOwnsIt"))])
+    # the same for destination=: a unicast signal to a name is "to" its owner only
+    out.append(base + [("send", 3, add(2, b"type='signal',destination='com.example.A',eavesdrop='true'")), ("send", 1, req(2, b"com.example.A")),
+                       ("send", 2, req(2, b"com.example.A")), ("send", 0, sig(2, "ToName", dest="com.example.A")), ("send", 0, sig(3, "ToWaiter", dest=":1.2")),
+                       ("send", 0, sig(4, "ToOwner", dest=":1.1"))])
+    return out
+
+
 def run_bus(ctx):
     from .. import buscheck
     check.lean_obligations(ctx, MODULE_BUS, THEOREMS_BUS)
     n = 50 if ctx.quick() else 1200
+    buscheck.run_histories(ctx, 0, 0, bus_oracle, seed_salt=49, label="rules-naming-queued-names", scripts=queued_sender_scripts())
     buscheck.run_histories(ctx, n, 90 if ctx.quick() else 140, bus_oracle,
                            gen_kw={"weights": W_BUS, "max_conns": 5, "rule_uniques": False}, label="broadcast-delivery")
     buscheck.run_histories(ctx, n // 2, 170 if ctx.quick() else 240, bus_oracle,
